@@ -1794,7 +1794,7 @@ class Builder(object):
                             "'{2}'".format(command, connective, place))
                         raise excepting.ParseError(msg, tokens, index)
 
-                    if index < len(tokens):
+                    if index < len(tokens) and tokens[index] not in Reserved:
                         frame = tokens[index]
                         index += 1
 
@@ -1897,7 +1897,7 @@ class Builder(object):
                             "'{2}'".format(command, connective, place))
                         raise excepting.ParseError(msg, tokens, index)
 
-                    if index < len(tokens):
+                    if index < len(tokens) and tokens[index] not in Reserved:
                         frame = tokens[index]
                         index += 1
 
